@@ -580,7 +580,12 @@ Definition attach_params (location : str) (branch : option str) (ref : option by
     if nonempty ref then
       match ref with
       | Some r => match ref_to_branch_name r with
-                  | Ok b => (None, Some b)
+                  | Ok b =>
+                      (* only a name that maps back to this ref replaces it *)
+                      match branch_name_to_ref b with
+                      | Some r' => if bytes_eqb r' r then (None, Some b) else (ref, None)
+                      | None => (ref, None)   (* unreachable: b was decoded from bytes *)
+                      end
                   | Err _ => (ref, None)      (* UnicodeDecodeError is a ValueError *)
                   end
       | None => (ref, branch)
@@ -605,6 +610,10 @@ Definition attach_params (location : str) (branch : option str) (ref : option by
     end
   else Ok location.
 
+(* location.replace(",", "%2C"): a comma of the git URL must not be read as the start of
+   the segment parameters *)
+Definition quote_commas (location : str) : str := replace [44] [37; 50; 67] location.
+
 Definition git_url_to_bzr_url (ssh_reser : str -> str) (location : str)
            (branch : option str) (ref : option bytes) : res str :=
   match branch, ref with
@@ -613,7 +622,7 @@ Definition git_url_to_bzr_url (ssh_reser : str -> str) (location : str)
       match url_head ssh_reser location with
       | HReturn l => Ok l
       | HErr e => Err e
-      | HCont l => attach_params l branch ref
+      | HCont l => attach_params (quote_commas l) branch ref
       end
   end.
 
